@@ -84,6 +84,7 @@ type Server struct {
 	nextConn    int
 	seq         uint64
 	sessions    map[int]*session
+	embryos     map[*session]bool // connections that have not sent their start-up message yet
 	commitCount uint64
 	waits       map[int]int // connection -> connection it waits for
 
@@ -93,7 +94,7 @@ type Server struct {
 
 // NewServer creates an empty database.
 func NewServer() *Server {
-	return &Server{FaultSQLState: "40001", cat: newCatalog(), sessions: map[int]*session{}, waits: map[int]int{}}
+	return &Server{FaultSQLState: "40001", cat: newCatalog(), sessions: map[int]*session{}, embryos: map[*session]bool{}, waits: map[int]int{}}
 }
 
 // SetGate installs the request gate (nil removes it).
@@ -167,6 +168,9 @@ func (s *Server) KillAll() {
 	sort.Ints(ids)
 	for _, id := range ids {
 		s.sessions[id].kill(errConnReset)
+	}
+	for ss := range s.embryos { // no state, so the order is irrelevant
+		ss.kill(errConnReset)
 	}
 	s.mu.Unlock()
 }
@@ -293,13 +297,24 @@ func (s *Server) ExecScript(sql string) error {
 
 // ---- connections ----
 
+// newSession creates the backend side of a connection. Its ConnID is assigned
+// when the start-up message arrives, so that the throw-away connections which
+// pgconn dials (from a background goroutine) to send a CancelRequest do not
+// consume ids; for real connections this is the Dial order.
 func (s *Server) newSession() *session {
 	s.mu.Lock()
 	defer s.mu.Unlock()
-	s.nextConn++
-	ss := &session{srv: s, id: s.nextConn, stmts: map[string]*pstmt{}, portals: map[string]*portal{}, abort: make(chan struct{})}
-	s.sessions[ss.id] = ss
+	ss := &session{srv: s, stmts: map[string]*pstmt{}, portals: map[string]*portal{}, abort: make(chan struct{})}
+	s.embryos[ss] = true
 	return ss
+}
+
+// register assigns the ConnID. Caller holds s.mu.
+func (s *Server) register(ss *session) {
+	delete(s.embryos, ss)
+	s.nextConn++
+	ss.id = s.nextConn
+	s.sessions[ss.id] = ss
 }
 
 // Dial returns the client side of a new in-memory connection. No goroutine
